@@ -195,13 +195,28 @@ theorem keep_install (sid : Nat) (s : St) (vs : List Val) (ds : List Int) (r : I
     simp at hid
     omega
 
+theorem keep_hookDone (sid : Nat) (s : St) (opId : Nat) (on : Bool) : Keep sid s (hookDone s opId on) := by
+  unfold hookDone
+  split
+  · apply Keep.thenRet; exact keep_of_fields sid _ _ rfl rfl rfl rfl rfl rfl
+  · exact keep_ret sid _ _ _ _
+
+theorem keep_setEnabledThenHook (sid : Nat) (s : St) (opId : Nat) (on : Bool) :
+    Keep sid s (setEnabledThenHook s opId on) := by
+  unfold setEnabledThenHook
+  have k1 : Keep sid s { s with port := { s.port with enabled := on } } := keep_of_fields sid _ _ rfl rfl rfl rfl rfl rfl
+  dsimp only
+  split
+  · exact k1.trans (keep_hookDone sid _ opId on)
+  · exact k1.trans (keep_addTimer sid _ _ _ _ trivial)
+
 theorem keep_finishOp (sid : Nat) (s : St) (opId : Nat) (op : Op) : Keep sid s (finishOp s opId op) := by
   unfold finishOp
   have k1 : Keep sid s (s.setSeq none) := keep_setSeq sid s none (by intro q' h; cases h)
   cases op <;> dsimp only
   case patchSeq vs ds r => exact k1.trans ((keep_install sid _ vs ds r).trans (keep_ret sid _ _ _ _))
   case setExpr b => apply Keep.thenRet; exact k1.trans (keep_of_fields sid _ _ rfl rfl rfl rfl rfl rfl)
-  case setEnabled on => apply Keep.thenRet; exact k1.trans (keep_of_fields sid _ _ rfl rfl rfl rfl rfl rfl)
+  case setEnabled on => exact k1.trans (keep_setEnabledThenHook sid _ opId on)
   case malformed => exact k1.trans (keep_ret sid _ _ _ _)
 
 theorem keep_cancelThen (fix : Fix) (sid : Nat) (s : St) (opId : Nat) (op : Op) : Keep sid s (cancelThen fix s opId op) := by
@@ -235,7 +250,9 @@ theorem keep_startOp (fix : Fix) (sid : Nat) (s : St) (opId : Nat) (op : Op) : K
     · split
       · exact keep_ret sid _ _ _ _
       · exact keep_cancelThen fix sid s opId _
-    · apply Keep.thenRet; exact keep_of_fields sid _ _ rfl rfl rfl rfl rfl rfl
+    · split
+      · exact keep_ret sid _ _ _ _
+      · exact keep_setEnabledThenHook sid s opId true
 
 theorem keep_resumeOp (fix : Fix) (sid : Nat) (s : St) (opId : Nat) (op : Op) (exc : Bool) :
     Keep sid s (resumeOp fix s opId op exc) := by
@@ -264,6 +281,7 @@ theorem keep_exec (fix : Fix) (sid : Nat) (s : St) (h : Handle) (hd : DeadSeq si
     | zero => exact keep_startOp fix sid s opId op
     | succ k => exact keep_push sid s _ trivial
   | resume opId op exc => exact keep_resumeOp fix sid s opId op exc
+  | hookEnd opId on => exact keep_hookDone sid s opId on
   | stop => exact keep_of_fields sid _ _ rfl rfl rfl rfl rfl rfl
 
 def committed (sid : Nat) (s : St) : List Val := (subsOfSid sid s.log).map Prod.snd ++ inFlight sid s.ready
@@ -392,7 +410,10 @@ theorem deadSeq_finishOp (sid : Nat) (s : St) (opId : Nat) (op : Op) (hf : sid <
     · simp [finishOp, install, he, St.setSeq, St.emit, St.push] at hq
       subst hq; simp at hid; omega
   | setExpr b => simp [finishOp, St.setSeq, St.emit] at hq
-  | setEnabled on => simp [finishOp, St.setSeq, St.emit] at hq
+  | setEnabled on =>
+    have k := (keep_setEnabledThenHook sid (s.setSeq none) opId on).seq (by simpa [St.setSeq] using hf)
+      (by intro q' h; simp [St.setSeq] at h)
+    exact k q hq hid
   | malformed => simp [finishOp, St.setSeq, St.emit] at hq
 
 /-- whatever state the loop task is in, once the cancelling part of an operation has run the playback is dead -/
